@@ -579,8 +579,43 @@ def simple_text_ok(t, text):
     raise ValueError(t)
 
 
+TYPELESS_XSD = f'''<xs:schema xmlns:xs="{XS}">
+<xs:complexType name="CT"><xs:sequence><xs:element name="a" minOccurs="0"/></xs:sequence><xs:attribute name="k" type="xs:int"/></xs:complexType>
+<xs:element name="hs" type="xs:int"/><xs:element name="ms" substitutionGroup="hs"/>
+<xs:element name="hc" type="CT"/><xs:element name="mc" substitutionGroup="hc"/>
+<xs:element name="hu"/><xs:element name="mu" substitutionGroup="hu"/>
+<xs:element name="r"><xs:complexType><xs:choice maxOccurs="unbounded"><xs:element ref="hs"/><xs:element ref="hc"/><xs:element ref="hu"/>
+</xs:choice></xs:complexType></xs:element></xs:schema>'''
+# a member without a type takes the head's type: content *and* attribute set
+TYPELESS_CASES = [('<ms>1</ms>', True), ('<ms>x</ms>', False), ('<ms foo="1">1</ms>', False), ('<hs foo="1">1</hs>', False),
+                  ('<mc k="1"><a/></mc>', True), ('<mc foo="1"/>', False), ('<mc k="x"/>', False), ('<mc><b/></mc>', False),
+                  ('<mu foo="1"><b/>text</mu>', True), ('<hu foo="1"><b/></hu>', True)]
+
+
+def run_typeless(res, xmlschema):
+    from lxml import etree
+    arb = etree.XMLSchema(etree.fromstring(TYPELESS_XSD.encode()))
+    for version, cls in (('1.0', xmlschema.XMLSchema10), ('1.1', xmlschema.XMLSchema11)):
+        schema = cls(TYPELESS_XSD)
+        for body, want in TYPELESS_CASES:
+            doc = f'<r>{body}</r>'
+            got = schema.is_valid(doc)
+            res.evaluations += 1
+            res.nontrivial.add(env.h8(('typeless', version, body)))
+            res.count('typeless_member:compared')
+            if got != want:
+                arb_valid = bool(arb.validate(etree.fromstring(doc.encode())))
+                if arb_valid == got:
+                    res.inconclusive_case('arbiter sides with library', doc)
+                    continue
+                res.violation(f'{"false-accept" if got else "false-reject"}:substitution-member-without-type',
+                              {'doc': doc, 'version': version, 'typeless': True},
+                              f'{version}: {doc}: library valid={got}, the member takes its head\'s type: expected {want} (libxml2 {arb_valid})')
+
+
 def run_simple(spec, res):
     xmlschema = env.activate_repo()
+    run_typeless(res, xmlschema)
     from lxml import etree
     arb = etree.XMLSchema(etree.fromstring(SIMPLE_XSD.encode()))
     for version, cls in (('1.0', xmlschema.XMLSchema10), ('1.1', xmlschema.XMLSchema11)):
